@@ -155,7 +155,16 @@ pub fn gen_pairs(r: &mut Rng, max: usize) -> Pairs {
     out
 }
 
-pub const EXTRA_HEADER_NAMES: [&str; 16] = [
+pub const EXTRA_HEADER_NAMES: [&str; 24] = [
+    // near-miss names of the headers the verifier consults: none of these may be taken for the real one
+    "x-amz-date-extra",
+    "x-amz-dat",
+    "date-x",
+    "x-amz-security-token-2",
+    "authorization-x",
+    "x-authorization",
+    "host2",
+    "content-type-x",
     // pairs in which one name is a proper prefix of the other (the longer continuing with '-' or a digit)
     "my-header",
     "x-amz-copy-source",
